@@ -341,7 +341,8 @@ func (w *World) mutatingSites(r *Report) []mutSite {
 
 type effOpts struct {
 	e1, e2, e3, e4, e5 bool
-	impl               bool // also check that the WriteFile implementation replaces the whole file
+	impl               bool   // also check that the WriteFile implementation replaces the whole file
+	onlyPkg            string // restrict E1 to this package's functions
 }
 
 func ruleEFF(w *World, r *Report, o effOpts) {
@@ -358,6 +359,9 @@ func ruleEFF(w *World, r *Report, o effOpts) {
 		k := fmt.Sprintf("E1:%s:%s#%d", name, m.Callee, perFn[name+m.Callee])
 		perFn[name+m.Callee]++
 		pkg := w.fnPkg(m.Fn)
+		if o.onlyPkg != "" && pkg != o.onlyPkg {
+			continue
+		}
 		switch {
 		case isDefaultFileIOWrite(m.Fn):
 			nPrim++
@@ -379,7 +383,11 @@ func ruleEFF(w *World, r *Report, o effOpts) {
 		}
 	}
 	if o.e1 {
-		r.floor("EFF", "mutating primitive sites inside defaultFileIO.WriteFile", nPrim, 2)
+		fl := 2
+		if o.onlyPkg != "" {
+			fl = 1
+		}
+		r.floor("EFF", "mutating primitive sites inside defaultFileIO.WriteFile", nPrim, fl)
 	}
 
 	// E2
